@@ -260,7 +260,7 @@ def run_case(case, R, count=True):
         outcome = ("ret", bytes(got) if got is not None else None)
     except tt4.Type4TagCommandError as e:
         outcome = ("t4err", e.errno)
-    except SimTagDevice.Bound as e:
+    except SimTagDevice.Bound:
         outcome = ("bound", None)
     except BaseException as e:          # noqa
         outcome = ("escape", e)
